@@ -24,6 +24,7 @@ import (
 	"sort"
 	"strings"
 
+	"com.tuntun.rangers/node/src/consensus/base"
 	"com.tuntun.rangers/node/src/consensus/groupsig"
 	bn "com.tuntun.rangers/node/src/consensus/groupsig/bn256"
 	"verif/harness/hx"
@@ -501,6 +502,178 @@ func exec(line string) string {
 			return "bad-op"
 		}
 		return hx.Hex(hashG1(msg).Marshal())
+	case w[0] == "j2lin" && len(w) == 5:
+		a, ok1 := pt2Of(w[1])
+		k1, ok2 := bigDec(w[2])
+		b, ok3 := pt2Of(w[3])
+		k2, ok4 := bigDec(w[4])
+		if !ok1 || !ok2 || !ok3 || !ok4 {
+			return "bad-op"
+		}
+		mk := func() *bn.G2 { return new(bn.G2).ScalarMult(a, k1) }
+		sum := new(bn.G2).Add(mk(), new(bn.G2).ScalarMult(b, k2)).Marshal()
+		ng := new(bn.G2).Neg(mk()).Marshal()
+		db := new(bn.G2).Add(mk(), mk()).Marshal()
+		return hx.Hex(sum) + " " + hx.Hex(ng) + " " + hx.Hex(db)
+	case (w[0] == "sigeq" || w[0] == "pkeq") && len(w) == 3:
+		b1, ok1 := unhex(w[1])
+		b2, ok2 := unhex(w[2])
+		if !ok1 || !ok2 {
+			return "bad-op"
+		}
+		if w[0] == "sigeq" {
+			return b01(groupsig.DeserializeSign(b1).IsEqual(*groupsig.DeserializeSign(b2)))
+		}
+		return b01(groupsig.ByteToPublicKey(b1).IsEqual(groupsig.ByteToPublicKey(b2)))
+	case w[0] == "scpred" && len(w) == 3:
+		a, ok1 := bigDec(w[1])
+		b, ok2 := bigDec(w[2])
+		if !ok1 || !ok2 {
+			return "bad-op"
+		}
+		sa, sb := seckeyOf(a), seckeyOf(b)
+		var ia, ib groupsig.ID
+		ia.SetBigInt(a)
+		ib.SetBigInt(b)
+		if sa.IsValid() != ia.IsValid() || sa.IsEqual(sb) != ia.IsEqual(ib) {
+			return "seckey-id-disagree"
+		}
+		return "valid=" + b01(sa.IsValid()) + " eq=" + b01(sa.IsEqual(sb))
+	case w[0] == "skagg":
+		var secs []groupsig.Seckey
+		for _, t := range w[1:] {
+			k, ok := bigDec(t)
+			if !ok {
+				return "bad-op"
+			}
+			secs = append(secs, seckeyOf(k))
+		}
+		agg := groupsig.AggregateSeckeys(secs)
+		if agg == nil {
+			return "nil"
+		}
+		return agg.GetBigInt().String()
+	case w[0] == "skrand" && len(w) == 2:
+		b, ok := unhex(w[1])
+		if !ok || len(b) != 32 {
+			return "bad-op"
+		}
+		var rnd base.Rand
+		copy(rnd[:], b)
+		return groupsig.NewSeckeyFromRand(rnd).GetBigInt().String()
+	case w[0] == "newid" && len(w) == 2:
+		b, ok := unhex(w[1])
+		if !ok {
+			return "bad-op"
+		}
+		pk := groupsig.ByteToPublicKey(b)
+		id := groupsig.NewIDFromPubkey(pk)
+		ad := pk.GetAddress()
+		return id.GetBigInt().String() + " addr=" + hx.Hex(ad[:])
+	case w[0] == "idaddr" && len(w) == 2:
+		k, ok := bigDec(w[1])
+		if !ok {
+			return "bad-op"
+		}
+		var id groupsig.ID
+		id.SetBigInt(k)
+		ad := id.ToAddress()
+		return hx.Hex(ad[:])
+	case w[0] == "shorts" && len(w) == 3:
+		b, ok := unhex(w[2])
+		if !ok {
+			return "bad-op"
+		}
+		if w[1] == "sig" {
+			return groupsig.DeserializeSign(b).ShortS()
+		}
+		pk := groupsig.ByteToPublicKey(b)
+		return pk.ShortS()
+	case (w[0] == "skhex" || w[0] == "idhex" || w[0] == "idjson") && len(w) == 2:
+		k, ok := bigDec(w[1])
+		if !ok {
+			return "bad-op"
+		}
+		if w[0] == "skhex" {
+			sk := seckeyOf(k)
+			return sk.GetHexString()
+		}
+		var id groupsig.ID
+		id.SetBigInt(k)
+		if w[0] == "idjson" {
+			js, _ := id.MarshalJSON()
+			return string(js)
+		}
+		return id.GetHexString()
+	case (w[0] == "skseth" || w[0] == "idseth" || w[0] == "idunjson") && len(w) == 3:
+		old, ok1 := bigDec(w[1])
+		sb, ok2 := unhex(w[2])
+		if !ok1 || !ok2 {
+			return "bad-op"
+		}
+		var err error
+		var got *big.Int
+		switch w[0] {
+		case "skseth":
+			sk := seckeyOf(old)
+			err = sk.SetHexString(string(sb))
+			got = sk.GetBigInt()
+		case "idseth":
+			var id groupsig.ID
+			id.SetBigInt(old)
+			err = id.SetHexString(string(sb))
+			got = id.GetBigInt()
+		default:
+			var id groupsig.ID
+			id.SetBigInt(old)
+			err = id.UnmarshalJSON(sb)
+			got = id.GetBigInt()
+		}
+		switch {
+		case err == nil:
+			return "ok " + got.String()
+		case strings.Contains(err.Error(), "arg failed"):
+			return "argfail " + got.String()
+		case strings.Contains(err.Error(), "less than min"):
+			return "short " + got.String()
+		}
+		return "err:" + strings.ReplaceAll(err.Error(), " ", "_")
+	case (w[0] == "sighex" || w[0] == "pkhex" || w[0] == "pkjson") && len(w) == 2:
+		b, ok := unhex(w[1])
+		if !ok {
+			return "bad-op"
+		}
+		if w[0] == "sighex" {
+			return groupsig.DeserializeSign(b).GetHexString()
+		}
+		pk := groupsig.ByteToPublicKey(b)
+		if w[0] == "pkjson" {
+			js, _ := pk.MarshalJSON()
+			return string(js)
+		}
+		return pk.GetHexString()
+	case (w[0] == "sigseth" || w[0] == "pkseth" || w[0] == "pkunjson") && len(w) == 3:
+		b, ok1 := unhex(w[1])
+		sb, ok2 := unhex(w[2])
+		if !ok1 || !ok2 {
+			return "bad-op"
+		}
+		if w[0] == "sigseth" {
+			s := groupsig.DeserializeSign(b)
+			err := s.SetHexString(string(sb))
+			return "err=" + b01(err != nil) + " " + sigReport(s)
+		}
+		pk := groupsig.ByteToPublicKey(b)
+		var err error
+		if w[0] == "pkseth" {
+			err = pk.SetHexString(string(sb))
+		} else {
+			err = pk.UnmarshalJSON(sb)
+			if err != nil && strings.Contains(err.Error(), "less than min") {
+				return "short " + pubReport(&pk)
+			}
+		}
+		return "err=" + b01(err != nil) + " " + pubReport(&pk)
 	case w[0] == "skser" && len(w) == 2:
 		k, ok := bigDec(w[1])
 		if !ok {
@@ -707,7 +880,7 @@ func (g *gen) relatedMsgs() []cand {
 		{"base-tail31", cat(b[1:])},              // proper suffix
 		{"zero+tail31", cat([]byte{0}, b[1:])},   // suffix left-padded to 32
 		{"base-head31", cat(b[:31])},             // proper prefix
-		{"base+byte", cat(b, []byte{byte(r.U64())})},
+		{"base+byte", cat(b, []byte{byte(1 + r.Intn(255))})}, // never equal to base+zero
 	}
 }
 
@@ -972,9 +1145,46 @@ func runCorr(a map[string]string) {
 		panic(err)
 	}
 	defer out.Close()
+	byKind := map[string]map[string]int{}
+	classOf := func(res string) string {
+		t := res
+		if i := strings.IndexByte(t, ' '); i >= 0 {
+			t = t[:i]
+		}
+		allHex, allDig := len(t) > 0, len(t) > 0
+		for _, ch := range t {
+			if !(ch >= '0' && ch <= '9' || ch >= 'a' && ch <= 'f') {
+				allHex = false
+			}
+			if !(ch >= '0' && ch <= '9') {
+				allDig = false
+			}
+		}
+		switch {
+		case allDig && len(t) <= 2:
+			return t
+		case allDig:
+			return "<number>"
+		case allHex:
+			return fmt.Sprintf("<hex:%d>", len(t)/2)
+		case strings.HasPrefix(t, "0x") || strings.HasPrefix(t, "\"0x"):
+			return fmt.Sprintf("<0x-string:%d>", len(t))
+		case len(t) > 20:
+			return t[:20]
+		}
+		return t
+	}
 	do := func(line string) {
 		line = complete(line)
-		out.Do(line, func() string { return exec(line) })
+		res := out.Do(line, func() string { return exec(line) })
+		k := line
+		if i := strings.IndexByte(k, ' '); i >= 0 {
+			k = k[:i]
+		}
+		if byKind[k] == nil {
+			byKind[k] = map[string]int{}
+		}
+		byKind[k][classOf(res)]++
 	}
 	// corpus first
 	ncorpus := 0
@@ -1280,6 +1490,125 @@ func runCorr(a map[string]string) {
 			do("pkb " + hx.Hex(pb))
 		}
 	}
+	// 3b. textual encodings: hex / JSON getters and setters of keys, ids, signatures, public keys
+	{
+		hexv := func(s string) string { return hx.Hex([]byte(s)) }
+		// values with an ODD number of hex digits (top nibble zero), boundaries, random
+		vals := []*big.Int{big.NewInt(0), big.NewInt(1), big.NewInt(15), big.NewInt(16), big.NewInt(255), big.NewInt(256), big.NewInt(4095)}
+		for i := 0; i < nmisc/24; i++ {
+			v := g.scalar()
+			vals = append(vals, v, new(big.Int).Rsh(v, uint(4*(1+r.Intn(5)))), new(big.Int).Rsh(v, uint(r.Intn(250))))
+		}
+		for _, v := range vals {
+			do("skhex " + v.String())
+			do("idhex " + v.String())
+			do("idjson " + v.String())
+			canon := "0x" + v.Text(16)
+			old := g.scalar().String()
+			for _, t := range []string{canon, strings.ToUpper(canon[2:]), "0x" + strings.ToUpper(canon[2:]), "0X" + canon[2:], "0x0" + canon[2:],
+				"0x000" + canon[2:], canon + "g", canon + " ", "0x" + canon[2:] + "_1", canon[:len(canon)-1], "0x", "0", "", "x", "0xzz", "0x+" + canon[2:], "0x-1", "\"" + canon + "\""} {
+				do("skseth " + old + " " + hexv(t))
+				do("idseth " + old + " " + hexv(t))
+				// JSON: mostly properly quoted (so that the hex parser behind it is reached), sometimes raw
+				do("idunjson " + old + " " + hexv("\""+t+"\""))
+				if len(t)%3 == 0 {
+					do("idunjson " + old + " " + hexv(t))
+				}
+			}
+			var id groupsig.ID
+			id.SetBigInt(new(big.Int).Mod(v, new(big.Int).Lsh(big.NewInt(1), 256)))
+			js, _ := id.MarshalJSON()
+			do("idunjson " + old + " " + hx.Hex(js))
+			do("idseth " + old + " " + hexv(id.GetHexString()))
+		}
+		do("idhex " + new(big.Int).Lsh(big.NewInt(1), 256).String())
+		for i := 0; i < 4+nmisc/20; i++ {
+			sk := g.sk()
+			if i%2 == 0 {
+				sk = g.leadingZeroPubkeySk(i / 2 % 4)
+			}
+			msg := g.msgClass(4 + i%2)
+			sg := groupsig.Sign(seckeyOf(sk), msg)
+			sb := sg.Serialize()
+			pkb := groupsig.GeneratePubkey(seckeyOf(sk)).Serialize()
+			other := g.point()
+			do("sighex " + hx.Hex(sb))
+			do("pkhex " + hx.Hex(pkb))
+			do("pkjson " + hx.Hex(pkb))
+			sh := "0x" + hex.EncodeToString(sb)
+			ph := "0x" + hex.EncodeToString(pkb)
+			for _, t := range []string{sh, strings.ToUpper(sh), "0x" + strings.ToUpper(sh[2:]), sh[:len(sh)-1], sh + "0", sh + "zz", sh[2:], "0x", "", "0x" + sh[2:60] + "g" + sh[61:],
+				"0x" + hex.EncodeToString(other), "0x" + hex.EncodeToString(make([]byte, 64))} {
+				do("sigseth " + hx.Hex(other) + " " + hexv(t))
+				do("sigseth - " + hexv(t))
+			}
+			for _, t := range []string{ph, "0x" + strings.ToUpper(ph[2:]), ph[:len(ph)-1], ph + "00", ph[2:], "0x", "", "0x00", "\"" + ph + "\"", "'" + ph + "'", "\""} {
+				do("pkseth " + hx.Hex(pkb) + " " + hexv(t))
+				do("pkseth - " + hexv(t))
+				do("pkunjson - " + hexv("\""+t+"\""))
+				do("pkunjson " + hx.Hex(pkb) + " " + hexv("\""+t+"\""))
+				if len(t)%3 == 0 {
+					do("pkunjson - " + hexv(t))
+				}
+			}
+		}
+		do("sighex -")
+		do("pkhex -")
+		do("pkhex 00")
+	}
+	// 3c. predicates, derived ids / addresses, secret-key construction and aggregation, G2 Jacobian
+	for i := 0; i < 6+nmisc/20; i++ {
+		sk1, sk2 := g.sk(), g.sk()
+		m := g.msgClass(i % 8)
+		s1 := groupsig.Sign(seckeyOf(sk1), m)
+		s2 := groupsig.Sign(seckeyOf(sk2), m)
+		b1, b2 := s1.Serialize(), s2.Serialize()
+		p1 := groupsig.GeneratePubkey(seckeyOf(sk1)).Serialize()
+		p2 := groupsig.GeneratePubkey(seckeyOf(sk2)).Serialize()
+		for _, pr := range [][2][]byte{{b1, b1}, {b1, b2}, {b1, append(append([]byte{}, b1...), 1)}, {b1, {}}, {{}, make([]byte, 64)}, {{}, {}}, {b1, b1[:63]}} {
+			do("sigeq " + hx.Hex(pr[0]) + " " + hx.Hex(pr[1]))
+		}
+		for _, pr := range [][2][]byte{{p1, p1}, {p1, p2}, {p1, append(append([]byte{}, p1...), 1)}, {p1, {}}, {{}, {0}}, {{}, make([]byte, 128)}} {
+			do("pkeq " + hx.Hex(pr[0]) + " " + hx.Hex(pr[1]))
+		}
+		do("scpred " + sk1.String() + " " + sk2.String())
+		do("scpred " + sk1.String() + " " + sk1.String())
+		do("scpred 0 " + sk1.String())
+		do("scpred 0 0")
+		do("skagg " + sk1.String() + " " + sk2.String() + " " + g.scalar().String())
+		do("skagg " + sk1.String() + " " + new(big.Int).Sub(bigR, sk1).String()) // sums to 0: the invalid key
+		do("skagg " + sk1.String())
+		sd := r.Bytes(32)
+		if i%3 == 0 {
+			sd = pad32(new(big.Int).Add(bigR, big.NewInt(int64(r.Intn(3)-1)))) // seed ≡ -1, 0, 1 (mod r)
+		}
+		do("skrand " + hx.Hex(sd))
+		do("newid " + hx.Hex(p1))
+		do("idaddr " + g.scalar().String())
+		do("idaddr " + big.NewInt(int64(r.Intn(1000))).String())
+		do("shorts sig " + hx.Hex(b1))
+		do("shorts pk " + hx.Hex(p1))
+		q1 := hx.Hex(p1)
+		q2 := hx.Hex(p2)
+		k1, k2 := g.scalar(), g.scalar()
+		switch i % 4 {
+		case 0:
+			q2 = q1
+		case 1:
+			q2, k2 = q1, new(big.Int).Sub(bigR, new(big.Int).Mod(k1, bigR))
+		case 2:
+			k2 = big.NewInt(0)
+		}
+		if i < 6 {
+			do("j2lin " + q1 + " " + k1.String() + " " + q2 + " " + k2.String())
+		}
+	}
+	do("skagg")
+	do("newid -")
+	do("newid " + hx.Hex(make([]byte, 128)))
+	do("shorts sig -")
+	do("shorts pk -")
+	do("idaddr " + new(big.Int).Lsh(big.NewInt(1), 256).String())
 	// 4. scalars and ids
 	for i := 0; i < nmisc; i++ {
 		v := g.scalar()
@@ -1300,6 +1629,7 @@ func runCorr(a map[string]string) {
 	st := map[string]interface{}{}
 	json.Unmarshal([]byte(out.StatsJSON()), &st)
 	st["classes"] = g.class
+	st["results_by_kind"] = byKind
 	st["corpus"] = ncorpus
 	js, _ := json.Marshal(st)
 	fmt.Println("STATS " + string(js))
